@@ -117,6 +117,28 @@ func (g *gen) count(min, max, hi int) int {
 	return lo + g.r.Intn(up-lo+1)
 }
 
+// edge: now and then a collection length right at the range of its length prefix (2^(8*lp)-1, 2^(8*lp), 2^(8*lp)+1):
+// the last one the prefix can say, and the first two it cannot.
+func (g *gen) edge(s *Schema, depth, one int) (int, bool) {
+	if depth > 1 || g.r.Intn(one) != 0 {
+		return 0, false
+	}
+	switch s.Lp {
+	case 1:
+		return 255 + g.r.Intn(3), true
+	case 2:
+		if g.r.Intn(8) == 0 && depth == 0 {
+			return 65535 + g.r.Intn(3), true
+		}
+	}
+
+	return 0, false
+}
+
+func cheapElem(s *Schema) bool {
+	return s.K == "bool" || (s.K == "num" && s.W <= 2) || (s.K == "struct" && len(s.F) == 0)
+}
+
 func (g *gen) tree(s *Schema, depth int) any {
 	hi := 6
 	if depth > 1 {
@@ -133,12 +155,18 @@ func (g *gen) tree(s *Schema, depth int) any {
 		return numTree(g.num(s.W, s.S), nlimbs(s.W))
 	case "str":
 		n := g.count(s.Min, s.Max, 3*hi)
+		if e, ok := g.edge(s, depth, 30); ok && s.Lp == 1 {
+			n = e
+		}
 
 		return bytesTree(g.str(n, g.r.Intn(8) != 0))
 	case "bytes":
 		n := g.count(s.Min, s.Max, 4*hi)
 		if g.r.Intn(40) == 0 {
 			n = 200 + g.r.Intn(200) // longer than a one-byte prefix can say
+		}
+		if e, ok := g.edge(s, depth, 30); ok {
+			n = e
 		}
 		b := make([]byte, n)
 		g.r.Read(b)
@@ -153,6 +181,9 @@ func (g *gen) tree(s *Schema, depth int) any {
 		n := s.N
 		if s.K == "slice" {
 			n = g.count(s.Min, s.Max, hi)
+			if e, ok := g.edge(s, depth, 30); ok && cheapElem(s.E) {
+				n = e
+			}
 		}
 		r := make([]any, n)
 		for i := range r {
@@ -165,6 +196,9 @@ func (g *gen) tree(s *Schema, depth int) any {
 		return r
 	case "map":
 		n := g.count(s.Min, s.Max, hi)
+		if e, ok := g.edge(s, depth, 60); ok && s.Lp == 1 && s.Key.K == "num" && s.Key.W == 2 && cheapElem(s.Val) {
+			n = e
+		}
 		seen := map[string]bool{}
 		r := []any{}
 		for tries := 0; len(r) < n && tries < 20*n; tries++ {
